@@ -12,6 +12,7 @@ A  == Ev.a
 Step ==
     \/ A.n = "Add" /\ Add(A.p, A.c, A.i)
     \/ A.n = "AddPresent" /\ AddPresent(A.p, A.c)
+    \/ A.n = "AddWrongType" /\ AddWrongType(A.p, A.c)
     \/ A.n = "Insert" /\ Insert(A.p, A.k, A.c, A.i)
     \/ A.n = "InsertPresent" /\ InsertPresent(A.p, A.c)
     \/ A.n = "Remove" /\ RemoveChild(A.p, A.c)
